@@ -289,3 +289,23 @@ Lemma failed_append_save_result v c s p l id oldv data create del typ meta now :
 Proof.
   unfold step_res. simpl. destruct (fst (fst (fst (save v s (p, l) id oldv data create del typ meta now)))); split; intros H; try discriminate; auto.
 Qed.
+
+(* (type, name) alone is NOT unique in the code as it is: an edit carrying another entity type resolves the namespace
+   for that other type (0 for a dashboard) and stores it, so the row "n2:n4" leaves namespace n2 by id while keeping its
+   name; the UNIQUE (namespace_id, type, name) key then admits a second metric "n2:n4" through the edit path (or through
+   the first save of a predefined id with create=false), which checkCreateEntity never sees *)
+Definition dup_name_witness : list op :=
+  [OSave 0 2 0 0 0 true 0 T_NS 0 10; OSave 2 4 0 0 0 true 0 T_METRIC 0 11; OSave 2 4 2 2 0 false 0 T_DASH 0 12;
+   OSave 0 9 0 0 0 true 0 T_METRIC 0 13; OSave 2 4 3 4 0 false 0 T_METRIC 0 14].
+Lemma names_unique_per_type_refuted :
+  exists c ops r1 r2, In r1 (ents (run faithful c empty ops)) /\ In r2 (ents (run faithful c empty ops)) /\
+    r_typ r1 = r_typ r2 /\ r_name r1 = r_name r2 /\ r_id r1 <> r_id r2 /\ r_ns r1 <> r_ns r2.
+Proof.
+  exists (Cfg 1 1 0 0), dup_name_witness, (R 2 (2, 4) 0 3 12 0 0 0), (R 3 (2, 4) 1 5 14 0 0 0).
+  vm_compute. repeat split; auto; discriminate.
+Qed.
+(* the variant that confines edits to rows of the requested type refuses the third request of the witness *)
+Lemma names_unique_per_type_witness_repaired :
+  map (fun r => match r with RSave e _ _ _ => e | _ => EOther end) (results (Var false false true false) (Cfg 1 1 0 0) empty dup_name_witness)
+  = [EOk; EOk; EVersion; EOk; EVersion].   (* the fifth then names a version that was never assigned *)
+Proof. vm_compute. reflexivity. Qed.
